@@ -1,10 +1,10 @@
 """C05 - reported costs are the cost of the reported state."""
 import random, warnings
 from fractions import Fraction as F
-import simlib, simstream, core
+import simlib, simstream, core, mplib
 from core import fr, unfr
 TRUSTED = ["exact regime (rates 0, 1/2, 1, 3/2, 2, 5/2, 3, 4, 10 and half-integer quantities)",
-		   "cost functions are exercised as polynomials (degree <= 2) that the model evaluates exactly; multi-product shared raw materials are not modelled"]
+		   "cost functions are exercised as polynomials (degree <= 2) that the model evaluates exactly; multi-product networks (shared / multi-sourced raw materials, per-product rates and revenues) are checked by the property's predicate on the real objects, not by the model"]
 THEOREM = 'Props/C05.list (period_costs_def, total_is_sum)'
 
 
@@ -106,8 +106,12 @@ def run(rep, drv):
 		rerun_case(rep, drv, simlib.gen_spec(rng, th, {'pcostfn': 0}), rng)
 	for k in range(60 if th else 12):
 		trials_case(rep, rng)
+	# multi-product networks: products with their own rates and revenues, raw materials shared by several products and multi-sourced
+	mplib.run_mp_stream(rep, drv, 'C05', THEOREM + ' (multi-product: predicate on the real objects only)', 500 if th else 80, th, seed_off=5)
 
 def replay(rep, drv, doc):
+	if doc['stream'] == 'mp-kernels':
+		return mplib.mp_case(rep, drv, doc['case'], 'C05', THEOREM)
 	if doc['stream'] == 'cost-kernel':
 		kernel_case(rep, drv, doc['case'])
 	else:
